@@ -21,7 +21,7 @@ Definition sx_item (x : sx) : option item :=
       match sx_strs cls, sx_schars nm with Some c, Some n => Some (IVoice c n) | _, _ => None end
   | SL [SI 6; SS s] => Some (IStamp s)
   | SL [SI 7; c; SS n] => match sx_bool c with Some b => Some (IUnk b n) | None => None end
-  | SL [SI 8; SS n] => Some (IEnt n)
+  | SL [SI 8; SS n; SI c] => Some (IEnt n c)
   | _ => None
   end.
 Definition sx_items := sx_listof sx_item.
